@@ -14,7 +14,7 @@ static const char *op_names[OP_N] = {"online", "offline", "read", "qs", "update"
 static const char *cfg_names[3] = {"M=SimMutex", "M=ticket_spinlock", "M=simple_spinlock"};
 static const uint64_t RECLAIMED = 0xDEADDEADDEADDEADull;
 
-static int P_cb, P_rereg, P_deferred, P_join_mid, P_leave_mid, P_multi_pending, P_barrier_ret, P_deferred_stop, P_reads, P_held_reads, P_offline_run, P_closing_rounds, P_sync_reclaim, P_skipped, P_recycled, P_nested_run, P_update_in_cb;
+static int P_cb, P_rereg, P_deferred, P_join_mid, P_leave_mid, P_multi_pending, P_barrier_ret, P_deferred_stop, P_reads, P_held_reads, P_offline_run, P_closing_rounds, P_sync_reclaim, P_skipped, P_recycled, P_nested_run, P_update_in_cb, P_aged_domain;
 
 struct Interval { uint64_t begin, end; VC clk; };
 struct Agent {
@@ -49,7 +49,7 @@ struct QsEngine : Engine {
 		P_cb = probe_id("callbacks_run"); P_rereg = probe_id("callback_reregistered_node"); P_deferred = probe_id("deferred_period_seen");
 		P_join_mid = probe_id("agent_joined_while_barrier_pending"); P_leave_mid = probe_id("agent_left_while_barrier_pending"); P_multi_pending = probe_id("two_or_more_barriers_pending");
 		P_barrier_ret = probe_id("quiescent_barrier_returned"); P_deferred_stop = probe_id("deferred_offline_stop"); P_reads = probe_id("reads"); P_held_reads = probe_id("held_pointer_revalidated");
-		P_offline_run = probe_id("run_while_offline"); P_closing_rounds = probe_id("closing_rounds"); P_sync_reclaim = probe_id("reclaim_after_quiescent_barrier"); P_skipped = probe_id("ops_skipped_precondition"); P_recycled = probe_id("reclaimed_object_recycled_and_registered_again"); P_nested_run = probe_id("run_called_from_inside_a_callback"); P_update_in_cb = probe_id("await_barrier_for_another_node_from_inside_a_callback");
+		P_offline_run = probe_id("run_while_offline"); P_closing_rounds = probe_id("closing_rounds"); P_sync_reclaim = probe_id("reclaim_after_quiescent_barrier"); P_skipped = probe_id("ops_skipped_precondition"); P_recycled = probe_id("reclaimed_object_recycled_and_registered_again"); P_nested_run = probe_id("run_called_from_inside_a_callback"); P_update_in_cb = probe_id("await_barrier_for_another_node_from_inside_a_callback"); P_aged_domain = probe_id("aged_domain_period_counter_near_2^32");
 	}
 	const char *name() override { return "simqs"; }
 	const char *op_name(int k) override { return k >= 0 && k < OP_N ? op_names[k] : "?"; }
@@ -91,7 +91,8 @@ struct QsEngine : Engine {
 				p.ops.push_back(q);
 			}
 		}
-		if (p.cfg == MT_TICKET && rng.chance(1, 3)) p.knobs["age"] = (int64_t)(0xFFFFFFFFu - (uint32_t)rng.below(6)); // aged domain mutex
+		if (p.cfg == MT_TICKET && rng.chance(1, 3)) p.knobs["age"] = (int64_t)((rng.chance(1, 2) ? 0xFFFFFFFFu : 0x7FFFFFFFu) - (uint32_t)rng.below(6)); // aged domain mutex
+		if (rng.chance(1, 4)) p.knobs["periods"] = (int64_t)(0x100000000ull - 1 - rng.below(4)); // a domain that has seen ~2^32 grace periods
 		pick_strategy(rng, p, true);
 	}
 
@@ -123,6 +124,7 @@ struct QsEngine : Engine {
 		for (int t = 0; t < MAXT; t++) ag[t] = Agent();
 		dom = obj_alloc(sut_domain_size(mt), 64);
 		sut_domain_construct(mt, dom);
+		if (p.knobs.count("periods")) { if (sut_domain_age(mt, dom, (uint64_t)p.knob("periods"))) probe(P_aged_domain); }
 		for (int t = 1; t <= nagents; t++) ag[t].mem = obj_alloc(sut_agent_size(mt), 64);
 		cell = (char *)obj_alloc(8, 64);
 		int first = new_obj();
